@@ -1,7 +1,140 @@
-import VermouthModel.Proto
-open Proto
+import VermouthModel.C13_Reader
+import Generated.C13Tables
+open Proto C13
 
-/-- placeholder driver for C13: replaced when the model is written -/
-def handle (_ : Unit) (_ : List Tok) : Unit × String := ((), "bad-op")
+def strLe (a b : String) : Bool := decide (a ≤ b)
+
+def reprJ : JVal → String
+  | .int i => "i" ++ toString i
+  | .str s => "s" ++ s
+  | .bool b => if b then "b1" else "b0"
+  | .null => "n"
+  | .other r => "o" ++ r
+
+def encAttrs (a : Attrs) : String :=
+  let sorted := a.mergeSort (fun x y => strLe x.1 y.1)
+  encList (sorted.map fun kv => encList [encStr kv.1, encStr (reprJ kv.2)])
+
+def jvalOf (t : Tok) : Option JVal := do
+  match ← t.list? with
+  | [Tok.int 0, Tok.int i] => pure (.int i)
+  | [Tok.int 1, Tok.str s] => pure (.str s)
+  | [Tok.int 2, Tok.int b] => pure (.bool (b != 0))
+  | [Tok.int 3] => pure .null
+  | [Tok.int 4, Tok.str s] => pure (.other s)
+  | _ => none
+
+def attrsOf (t : Tok) : Option Attrs := do
+  (← t.list?).mapM fun e => do
+    match ← e.list? with
+    | [k, v] => pure (← k.str?, ← jvalOf v)
+    | _ => none
+
+def encInters (l : List Inter) : String :=
+  let sorted := l.mergeSort (fun x y => strLe x.sect y.sect)
+  encList (sorted.map fun it => encList [encStr it.sect, encList (it.atoms.map encStr), encList (it.params.map encStr)])
+
+def encNodes (c : Ctx) : String :=
+  encList (c.nodes.map fun n => encList [encStr n.1, encAttrs n.2])
+
+def encDump (d : Dump) : String :=
+  let blocks := d.blocks.map fun (k, (_, c)) =>
+    encList [encOptStr k, encList (c.nodes.map fun n => encStr n.1), encInters c.inters]
+  let links := d.links.map fun (_, c) => encList [encNodes c, encInters c.inters, encInters c.removed]
+  let mods := d.mods.map fun (k, (_, c)) => encList [encOptStr k, encNodes c, encInters c.inters]
+  encList [encList blocks, encList links, encList mods]
+
+def ffTab : List Entry := C13.Gen.ffKeys.map fun (p, m, c) => { path := p, method := m, ctype := c }
+def itpTab : List Entry := C13.Gen.itpKeys.map fun (p, m, c) => { path := p, method := m, ctype := c }
+def itpIdx : List (String × List Idx) :=
+  C13.Gen.itpAtomIdxs.map fun (s, l) => (s, l.map fun (k, a, b) =>
+    if k = 0 then Idx.pos a else if k = 1 then Idx.slice a (some b) else Idx.slice a none)
+
+def lineOf (t : Tok) : Option Line := do
+  match ← t.list? with
+  | [Tok.int 0, Tok.str n] => pure (.header n)
+  | [Tok.int 1, Tok.str s] => pure (.content s)
+  | _ => none
+
+/-- dispatcher-only parameters: a context is the list of (section path, text) it received -/
+def bodyParams (T : List Path) (route : Path → Kind) : Params (List (Path × String)) Unit :=
+  { T := T, route := route, handle := fun _ p t c => some (c ++ [(p, t)]),
+    handleG := fun _ _ _ g => some g, fresh := fun _ => [], nameOf := fun c => (c.head?).map (·.2) }
+
+def encBody (b : Nat × List (Path × String)) : String :=
+  encList [encNat b.1, encList (b.2.map fun (p, t) => encList [encList (p.map encStr), encStr t])]
+
+def mapParams : MParams (List (Path × String)) :=
+  { T := C13.Gen.mapKeys, handle := fun p t c => some (c ++ [(p, t)]), fresh := [] }
+
+def handle (_ : Unit) (toks : List Tok) : Unit × String :=
+  let r : Option String :=
+    match toks with
+    | [Tok.str "tok", s] => do
+        let s ← s.str?
+        match tokenizeS s with
+        | some ts => pure ("ok " ++ encList (ts.map encStr))
+        | none => pure "error"
+    | [Tok.str "prefix", r, a] => do
+        let r ← r.str?
+        let a ← attrsOf a
+        match treatAtomPrefix r.toList a with
+        | some (k, a') => pure ("ok " ++ encStr (String.ofList k) ++ " " ++ encAttrs a')
+        | none => pure "error"
+    | [Tok.str "atoms", sect, ts] => do
+        let sect ← sect.optStr?
+        let ts ← strs? ts
+        let n := match sect with | some s => natomsOf C13.Gen.natoms s | none => none
+        match baseAtoms n ts with
+        | some (atoms, rest) =>
+          pure ("ok " ++ encList (atoms.map fun (r, a) => encList [encStr r, encOptStr a]) ++ " " ++ encList (rest.map encStr))
+        | none => pure "error"
+    | [Tok.str "weights", m] => do
+        let m ← (← m.list?).mapM fun e => do
+          match ← e.list? with
+          | [f, tos] => pure (← f.str?, ← strs? tos)
+          | _ => none
+        match computeWeights m with
+        | some w =>
+          let rows := w.map fun (t, f, fr) =>
+            let g := Nat.gcd fr.num fr.den
+            let g := if g = 0 then 1 else g
+            encList [encStr t, encStr f, encNat (fr.num / g), encNat (fr.den / g)]
+          pure ("ok " ++ encList (rows.mergeSort strLe))
+        | none => pure "error"
+    | [Tok.str "subst", ms, l] => do
+        let ms ← (← ms.list?).mapM fun e => do
+          match ← e.list? with
+          | [n, v] => pure (← n.str?, ← v.str?)
+          | _ => none
+        let l ← l.str?
+        match substMacros ms l with
+        | some s => pure ("ok " ++ encStr s)
+        | none => pure "error"
+    | [Tok.str "ff", ls] => do
+        let ls ← strs? ls
+        match readFF C13.Gen.natoms ffTab ls with
+        | some d => pure (encDump d)
+        | none => pure "error"
+    | [Tok.str "itp", ls] => do
+        let ls ← strs? ls
+        match readITP itpIdx itpTab ls with
+        | some bs => pure (encList (bs.map fun (k, (_, c)) =>
+            encList [encOptStr k, encList (c.nodes.map fun n => encStr n.1), encInters c.inters]))
+        | none => pure "error"
+    | [Tok.str "ffdisp", ls] => do
+        -- dispatcher only (bodies), table and routes of the FF reader
+        let ls ← (← ls.list?).mapM lineOf
+        match ffRun (bodyParams (ffTab.map (·.path)) (routeOf ffTab)) () ls with
+        | some s => pure (encList [encList (s.blocks.map fun b => encBody b.2), encList (s.links.map encBody),
+                                   encList (s.mods.map fun b => encBody b.2)])
+        | none => pure "error"
+    | [Tok.str "mapdisp", ls] => do
+        let ls ← (← ls.list?).mapM lineOf
+        match mapRun mapParams ls with
+        | some s => pure (encList (s.out.map encBody))
+        | none => pure "error"
+    | _ => none
+  ((), r.getD "bad-op")
 
 def main : IO Unit := runDriver handle ()
